@@ -244,15 +244,27 @@ func play(data []byte, exp [][]expectEv, ns []int, pat string, withMeta bool, se
 		// Only with two types that together cover everything: nothing is skipped, nothing doubled
 		playVariant(data, exp, ns, pat, withMeta, sel, mp, false, false, true)
 	}
+	if len(mp) == 2 && len(sel) == 0 {
+		// a filter set and taken away again (Only() without types): everything plays
+		clearedFilter = true
+		playVariant(data, exp, ns, pat, withMeta, sel, mp, false, false, false)
+		clearedFilter = false
+	}
 	if len(mp) == 1 && mp[-1] == "B" {
 		// the same reader played a second time, into a port whose Send takes time
 		playVariant(data, exp, ns, pat, withMeta, sel, mp, false, true, false)
 	}
 }
 
+// clearedFilter: playVariant sets a type filter and takes it away again before playing.
+var clearedFilter bool
+
 func playVariant(data []byte, expAll [][]expectEv, ns []int, pat string, withMeta bool, sel []int, mp map[int]string, only bool, twice bool, both bool) {
 	if both {
 		pat += "+only-two-types"
+	}
+	if clearedFilter {
+		pat += "+filter-cleared"
 	}
 	ctx.Eval()
 	vtime.Reset()
@@ -294,6 +306,9 @@ func playVariant(data []byte, expAll [][]expectEv, ns []int, pat string, withMet
 	}
 	if both {
 		tr = tr.Only(midi.ControlChangeMsg, midi.ProgramChangeMsg)
+	}
+	if clearedFilter {
+		tr = tr.Only(midi.ControlChangeMsg).Only()
 	}
 	if twice {
 		for _, p := range ports {
@@ -534,6 +549,15 @@ func space(job int) {
 							play(d0, exp, ns, pat+"@format0-header", wm, nil, mp)
 						}
 					}
+					if pi == 0 {
+						// a header that declares no track at all (the reader then takes
+						// every track chunk up to the end of the data)
+						dz := append([]byte(nil), data...)
+						dz[10], dz[11] = 0, 0
+						for _, mp := range maps {
+							play(dz, exp, ns, pat+"@zero-tracks-header", wm, nil, mp)
+						}
+					}
 				}
 				tempoLayout = 0
 			}
@@ -675,6 +699,9 @@ func main() {
 		}
 		fmt0 := strings.Contains(pat, "@format0-header")
 		pat = strings.Replace(pat, "@format0-header", "", 1)
+		zeroTr := strings.Contains(pat, "@zero-tracks-header")
+		pat = strings.Replace(pat, "@zero-tracks-header", "", 1)
+		clearedFilter = strings.Contains(pat, "+filter-cleared")
 		only, twice, both := strings.Contains(pat, "+only-filter"), strings.Contains(pat, "+second-playback"), strings.Contains(pat, "+only-two-types")
 		if i := strings.Index(pat, "+"); i >= 0 {
 			pat = pat[:i]
@@ -686,6 +713,10 @@ func main() {
 		if fmt0 {
 			data[8], data[9] = 0, 0
 			pat += "@format0-header"
+		}
+		if zeroTr {
+			data[10], data[11] = 0, 0
+			pat += "@zero-tracks-header"
 		}
 		playVariant(data, exp, ns, pat, m["with_meta"].(bool), sel, mp, only, twice, both)
 		ctx.Finish("replay")
